@@ -2514,10 +2514,12 @@ template< size_t L> inline
    int FixedString< L>::partCompareImpl( size_t pos1, size_t count1,
       const char* str, size_t len2) const noexcept
 {
-   if (pos1 >= mLength)
+   // pos1 == mLength is the (valid) empty part at the end of the string
+   if (pos1 > mLength)
       return (len2 == 0) ? 0 : 1;
 
-   const size_t  use_len = (pos1 + count1 > mLength) ? (mLength - pos1) : count1;
+   // count1 can be max(64bit), so we cannot calc pos1 + count1
+   const size_t  use_len = (count1 > mLength - pos1) ? (mLength - pos1) : count1;
    const size_t  max_cmp_len = std::min( use_len, len2);
    const int     cmp_result = std::memcmp( &mString[ pos1], str, max_cmp_len);
 
@@ -2558,10 +2560,13 @@ template< size_t L> inline
    int FixedString< L>::partPartCompareImpl( size_t pos1, size_t count1,
       const char* str, size_t len2, size_t pos2, size_t count2) const noexcept
 {
-   if (pos1 >= mLength)
-      return (pos2 >= len2) ? 0 : 1;
-   if (pos2 >= len2)
+   if ((pos1 > mLength) || (pos2 > len2))
+   {
+      // at least one invalid part
+      if (pos1 >= mLength)
+         return (pos2 >= len2) ? 0 : 1;
       return -1;
+   } // end if
 
    const size_t  str_len1 = (count1 > mLength - pos1) ? (mLength - pos1) : count1;
    const size_t  str_len2 = (count2 > len2 - pos2) ? (len2 - pos2) : count2;
